@@ -13,3 +13,5 @@ pub mod c03_unwind;
 pub mod c20_slot;
 #[cfg(kani)]
 pub mod c17_pathmap;
+#[cfg(kani)]
+pub mod c16_owned;
